@@ -28,6 +28,17 @@ CHECKS = {
         technique='Coq proof (encoder = declarative layout; lengths by induction) + correspondence + strict reference parser as oracle',
         design_ref='DESIGN.md section 6, C02',
         note=COMMON_NOTE + ' The strict parser is an executable oracle (its own round trip is validated per run, not proved).'),
+    'C04': dict(
+        text=('Proof over the complete behaviour of the code: the real StateMachine is exercised on all 13 states x 19 '
+              'events x both roles x every applicable primitive kind (702 cells) with a recording transport, queue and '
+              'ARTIM timer; Coq checks every observed cell against the independently transcribed PS3.8 Table 9-10 / '
+              'Tables 9-6..9-9 (wire PDU, indication, close/open, ARTIM effect, next state; undefined cells: no effect) '
+              'by vm_compute, and theorem C04_every_cell lifts it to every state, event and role. Exhaustive, so the '
+              'theorem is about the live code.'),
+        technique='Coq proof by reflection over an exhaustive behavioural table regenerated from the code',
+        design_ref='DESIGN.md section 6, C04',
+        note=COMMON_NOTE + ' The recording provider/transport (harness/world.py) abstracts each effect (PDU type, abort source, '
+             'identity with the triggering primitive); AA-4 accepts any abort source in the indication.'),
     'C06': dict(
         text=('Theorem C06_fragmentation (Coq, no axioms): for ALL command-set bytes, data-set bytes, context ids and '
               'every maximum PDU length m >= 7 (unbounded, 2^32-1 included) the model of chunks/fragment/'
